@@ -162,10 +162,10 @@ func TestVerifWorker(t *testing.T) {
 		return
 	}
 	for i, seed := range job.Seeds {
-		emit(map[string]any{"start": seed})
 		plan := def.gen(seed, job.Tier)
 		plan.Seed = seed
 		plan.Prop = job.Prop
+		emit(map[string]any{"start": seed, "plan": plan})
 		res, _ := execPlan(t, plan, false)
 		if i < job.Samples && res.Plan == nil {
 			res.Plan = plan
